@@ -8,6 +8,7 @@ import (
 	"os"
 	"os/exec"
 	"path/filepath"
+	"runtime"
 	"sort"
 	"strconv"
 	"strings"
@@ -284,6 +285,12 @@ func CheckMain(args []string) int {
 		opts.QuickMs, opts.RaceMs = 10000, 60000
 		opts.Stability = true
 	}
+	// solver time limits are CPU-bound budgets: when the machine is already busier than it has cores (other checks running
+	// beside this one) they are stretched in proportion, so that a pass does not depend on having the machine to itself
+	if f := loadFactor(); f > 1 {
+		opts.QuickMs, opts.RaceMs = int(float64(opts.QuickMs)*f), int(float64(opts.RaceMs)*f)
+		fmt.Printf("note: load average above the core count, solver time limits x%.1f\n", f)
+	}
 	stats := &SolverStats{}
 	var keys []string
 	for k := range units {
@@ -541,4 +548,28 @@ func fnv32(s string) uint32 {
 		h *= 16777619
 	}
 	return h
+}
+
+// loadFactor is max(1, min(4, 1-minute load average / number of CPUs)).
+func loadFactor() float64 {
+	b, err := os.ReadFile("/proc/loadavg")
+	if err != nil {
+		return 1
+	}
+	fs := strings.Fields(string(b))
+	if len(fs) == 0 {
+		return 1
+	}
+	l, err := strconv.ParseFloat(fs[0], 64)
+	if err != nil {
+		return 1
+	}
+	f := l / float64(runtime.NumCPU())
+	if f < 1 {
+		return 1
+	}
+	if f > 4 {
+		return 4
+	}
+	return f
 }
